@@ -1,29 +1,28 @@
 (* C01 — completeness: the recorded witness satisfies every emitted constraint.
    PARTIAL.  What is proved, for every prime p, every program, every input vector:
-     if (a) the generated command list is well-scoped and (b) at the moment each constraint v * w = y is
-     emitted the *values* of v, w, y satisfy it modulo p,
-     then the FINAL recorded witness satisfies every emitted constraint as a constraint on the wires.
-   (a) and (b) are computable ([scoped_cmds], [vjustb]) and are evaluated on every generated case by the
-   harness; (b) is the integer-level identity that pysnark's add_constraint itself checks at run time when
-   unguarded.  What is missing for the full statement: (a) and (b) for ALL programs, i.e. one value-identity
+     if at the moment each constraint v * w = y is emitted the *values* of v, w, y satisfy it modulo p,
+     then the FINAL recorded witness satisfies every emitted constraint as a constraint on the wires
+     (well-scopedness of the command list, needed for that, is proved for all programs in Proofs/Frame.v).
+   The hypothesis is computable ([vjustb]) and is evaluated in-kernel on every generated case by the
+   harness; it is the integer-level identity that pysnark's add_constraint itself checks at run time when
+   unguarded.  What is missing for the full statement: the hypothesis for ALL programs, i.e. one value-identity
    lemma per emitting gadget (mul, check_zero, assert_nonzero, and the callers of the guarded add_constraint)
    and an induction over the generator.  The direct oracle evaluates every recorded constraint of the real
    code on the recorded witness for every generated case. *)
 From Coq Require Import ZArith List Znumtheory Lia.
 From PySnark.Base Require Import FieldZ.
 From PySnark.Model Require Import Lc Sym Gadgets Api Prog.
-From PySnark.Proofs Require Import Meta FieldOk.
+From PySnark.Proofs Require Import Meta FieldOk Frame ProgFrame.
 Import ListNotations.
 Open Scope Z_scope.
 
 Theorem C01_completeness_partial : forall (p : Z) (c : cfg) (pr : list stmt) (ins : list Z) (ig : bool),
   prime p ->
-  scoped_cmds 0 0 (gen_prog (p:=p) c pr) = true ->
   vjustb ins ig (gen_prog (p:=p) c pr) (Sym.init) = true ->
   let t := model_run (p:=p) c pr ins ig in
   Forall (holds (p:=p) (wval (st t))) (cons t).
 Proof.
-  intros p c pr ins ig Hp Sc V t. apply (sat_final (field_ok_prime p Hp)); [exact Sc|].
+  intros p c pr ins ig Hp V t. apply (sat_final (field_ok_prime p Hp)); [exact (gen_prog_scoped c pr)|].
   apply vjustb_vjust; [pose proof (prime_ge_2 _ Hp); lia|exact V].
 Qed.
 
